@@ -96,7 +96,10 @@ static void collect_tsan(Result &r) {
                 if (fl.compare(sl + 1, 6, "/repo/") == 0) {
                     xcm_blocks++;
                     size_t fs = fl.find(' ', 6);
-                    sites.push_back(fl.substr(fs == std::string::npos ? 0 : fs + 1, 120));
+                    std::string site = fl.substr(fs == std::string::npos ? 0 : fs + 1, 160);
+                    size_t cut = site.find(" (xsim+");
+                    if (cut != std::string::npos) site.resize(cut);
+                    sites.push_back(site);
                 }
                 break;
             }
